@@ -8,6 +8,9 @@
 //!   tzdb_loc <zone> <y m d h mi s>             provider.get_named_tz_epoch_nanoseconds → instants (epoch seconds)
 //!   tzdb_id  <hex name>                        provider.check_identifier
 //!   tzdb_ord <zone> <zone2> <t>                the same query before/after other queries and on a fresh provider
+//!   tzdb_offns <zone> <seconds> <sub ns>       the offset at an instant with a sub-second part (floor to its second)
+//!   tzdb_hist <seed> <n>                       one provider answers queries for n distinct zones, then for each again:
+//!                                              every answer must be the one a fresh provider gives (`ok same`)
 use crate::common::*;
 use std::io::Write;
 use temporal_rs::iso::{IsoDateTime, IsoTime};
@@ -118,8 +121,44 @@ pub fn generate(rng: &mut Rng, thorough: bool) -> Vec<String> {
                 instants.push(jan1 + doy * 86400 + rng.range(0, 86399) as i64);
             }
         }
+        // the footer's rule transitions beyond the table, located on the provider itself: sample the offset daily
+        // over a year and bisect every change down to the second; probe that second and its neighbours
+        if z.footer.contains(',') {
+            let prov = FsTzdbProvider::default();
+            let off = |t: i64| prov.get_named_tz_offset_nanoseconds(name, t as i128 * 1_000_000_000).map(|o| o.offset).unwrap_or(i64::MIN);
+            let years: Vec<i64> = if thorough { vec![2038, 2040, 2087, 2100, 2400, 9000] } else { vec![*rng.pick(&[2039i64, 2040, 2050, 2087]), *rng.pick(&[2100i64, 2400, 5000])] };
+            for y in years {
+                let jan1 = temporal_rs::verif_hooks::epoch_days_from_gregorian_date(y as i32, 1, 1) as i64 * 86400;
+                let mut prev = off(jan1);
+                for d in 1..=366i64 {
+                    let t = jan1 + d * 86400;
+                    let cur = off(t);
+                    if cur != prev {
+                        let (mut lo, mut hi) = (t - 86400, t); // off(lo) = prev, off(hi) = cur
+                        while hi - lo > 1 {
+                            let mid = lo + (hi - lo) / 2;
+                            if off(mid) == prev { lo = mid } else { hi = mid }
+                        }
+                        for dd in [-2i64, -1, 0, 1] {
+                            instants.push(hi + dd);
+                        }
+                    }
+                    prev = cur;
+                }
+            }
+        }
         for t in &instants {
             v.push(format!("tzdb_off {name} {t}"));
+        }
+        // sub-second instants next to transitions (also before 1970, where truncation and floor differ)
+        for (t, _) in z.trans.iter().rev().take(3).chain(z.trans.iter().take(3)) {
+            for (sec, sub) in [(t - 1, 999_999_999i64), (t - 1, 1), (*t, 0), (*t, 1), (t - 1, 500_000_000)] {
+                v.push(format!("tzdb_offns {name} {sec} {sub}"));
+            }
+        }
+        if let Some((t, _)) = z.trans.iter().find(|(t, _)| *t < 0 && *t > -3_000_000_000) {
+            v.push(format!("tzdb_offns {name} {} 999999999", t - 1));
+            v.push(format!("tzdb_offns {name} {} 250000000", t - 1));
         }
         // local date-times: images of the sampled instants under the neighbouring offsets
         for t in instants.iter().step_by(3) {
@@ -129,6 +168,10 @@ pub fn generate(rng: &mut Rng, thorough: bool) -> Vec<String> {
         // query-order independence
         let other = rng.pick(&zones);
         v.push(format!("tzdb_ord {name} {other} {}", rng.pick(&instants)));
+    }
+    // long histories over many distinct zones on one provider
+    for _ in 0..(if thorough { 12 } else { 3 }) {
+        v.push(format!("tzdb_hist {} {}", rng.next() % 1_000_000, *rng.pick(&[40u32, 70, 100, 130])));
     }
     // identifiers: every name, case-mangled variants, non-names
     for name in &zones {
@@ -171,6 +214,34 @@ pub fn eval(t: &[&str]) -> Option<String> {
             let bytes = super::c03::unhex(t[1]);
             let s = String::from_utf8_lossy(&bytes).to_string();
             Some(format!("ok {}", p.check_identifier(&s) as u8))
+        }
+        "tzdb_offns" => {
+            let p = FsTzdbProvider::default();
+            let r = p.get_named_tz_offset_nanoseconds(t[1], i(t[2]) * 1_000_000_000 + i(t[3]));
+            Some(render(r, |o| o.offset.to_string()))
+        }
+        "tzdb_hist" => {
+            let mut rng = Rng::new(i(t[1]) as u64);
+            let all = super::c03::zone_ids();
+            let n = (i(t[2]) as usize).min(all.len());
+            // n distinct zones
+            let mut names: Vec<String> = Vec::new();
+            while names.len() < n {
+                let c = rng.pick(&all).clone();
+                if !names.contains(&c) { names.push(c); }
+            }
+            let at = |k: usize| (k as i128 * 37_000_000 - 1_000_000_000) * 1_000_000_000;
+            let warm = FsTzdbProvider::default();
+            let first: Vec<_> = names.iter().enumerate().map(|(k, z)| warm.get_named_tz_offset_nanoseconds(z, at(k)).map(|o| o.offset).ok()).collect();
+            let mut bad = None;
+            for (k, z) in names.iter().enumerate() {
+                let again = warm.get_named_tz_offset_nanoseconds(z, at(k)).map(|o| o.offset).ok();
+                let fresh = FsTzdbProvider::default().get_named_tz_offset_nanoseconds(z, at(k)).map(|o| o.offset).ok();
+                if (again != fresh || first[k] != fresh) && bad.is_none() {
+                    bad = Some(format!("{z}: first {:?} again {:?} fresh {:?}", first[k], again, fresh));
+                }
+            }
+            Some(match bad { None => "ok same".into(), Some(b) => format!("ok differ {b}") })
         }
         "tzdb_ord" => {
             // the answer of a warm provider (other zones and instants queried first) equals a fresh provider's
